@@ -162,7 +162,16 @@ func (gl *gramLevel) scan(p *Prog, body *levelBody) {
 				continue
 			}
 			callee, static := gl.calleeOf(p, ci)
-			if callee == nil || !p.InPkg(callee) {
+			if callee == nil {
+				// a local function variable that holds one of several methods of the level's parser
+				// (`parseOperand := p.parseA; if … { parseOperand = p.parseB }; parseOperand()`): every one of them
+				for _, fn := range gl.boundMethodsCalled(p, ci) {
+					gl.callsF[fn.Name()] = append(gl.callsF[fn.Name()], ci)
+					gl.callee[fn.Name()] = fn
+				}
+				continue
+			}
+			if !p.InPkg(callee) {
 				continue
 			}
 			args := ci.Common().Args
@@ -420,4 +429,61 @@ func unspillParam(v ssa.Value) ssa.Value {
 		return pa
 	}
 	return v
+}
+
+// boundMethodsCalled: the dynamic call ci calls a local function value that is, on every way it can be reached, a
+// method of the parser the level runs on, bound to that parser (a phi or a local cell of `p.parseX` values).
+func (gl *gramLevel) boundMethodsCalled(p *Prog, ci ssa.CallInstruction) []*ssa.Function {
+	cc := ci.Common()
+	if cc.IsInvoke() || cc.StaticCallee() != nil {
+		return nil
+	}
+	var out []*ssa.Function
+	ok := true
+	seen := map[ssa.Value]bool{}
+	var walk func(v ssa.Value, d int)
+	walk = func(v ssa.Value, d int) {
+		if v == nil || seen[v] || d > 6 {
+			return
+		}
+		seen[v] = true
+		switch x := v.(type) {
+		case *ssa.Phi:
+			for _, e := range x.Edges {
+				walk(e, d+1)
+			}
+		case *ssa.UnOp:
+			if cell, isCell := x.X.(*ssa.Alloc); isCell {
+				for _, sv := range allStoresTo(cell) {
+					walk(sv, d+1)
+				}
+				return
+			}
+			ok = false
+		case *ssa.MakeClosure:
+			fn, isF := x.Fn.(*ssa.Function)
+			if !isF || !strings.HasSuffix(fn.Name(), "$bound") || len(x.Bindings) != 1 {
+				ok = false
+				return
+			}
+			if len(gl.fn.Params) == 0 || unspillParam(gl.resolve(x.Bindings[0])) != ssa.Value(gl.fn.Params[0]) {
+				ok = false
+				return
+			}
+			if obj, isFn := fn.Object().(*types.Func); isFn {
+				if target := p.SSA.FuncValue(obj); target != nil {
+					out = append(out, target)
+					return
+				}
+			}
+			ok = false
+		default:
+			ok = false
+		}
+	}
+	walk(cc.Value, 0)
+	if !ok {
+		return nil
+	}
+	return out
 }
